@@ -478,7 +478,8 @@ def collapse_stream(ctx: common.Ctx, n_jobs: int, side: str, procs: int = 14):
     shutil.rmtree(gen_ref.WORK, ignore_errors=True)
 
 
-def fusion_pairs(ctx: common.Ctx, n_jobs: int, procs: int = 14):
+def fusion_pairs(ctx: common.Ctx, n_jobs: int, procs: int = 14, unique_entries: bool = False,
+                 metamorphic: bool = True):
     """two fusions from one donor breakpoint (see cv_backbone.fusion_pair_worker): violations
     are added here; returns the number of evaluated cases"""
     from . import cv_backbone
@@ -500,7 +501,16 @@ def fusion_pairs(ctx: common.Ctx, n_jobs: int, procs: int = 14):
             ctx.add_violation(f'callVariant crashed ({r["runs"][bad[0]]["status"]}) on an input with '
                               'two fusions from one donor breakpoint', dict(r['desc'], kind='crash'))
             continue
-        lost = (a | b) - c
+        if unique_entries:
+            for k in ('first', 'second', 'both'):
+                d = r['runs'][k].get('dup_entries')
+                if d:
+                    ctx.add_violation(f'header entry string(s) {d[:3]} occur more than once in the FASTA of an input '
+                                      'with small records on a fusion donor', dict(r['desc'], kind='dup-entry', run=k,
+                                                                                  entries=d),
+                                      finding_key='fusion-donor-entries-numbered-twice')
+                    break
+        lost = (a | b) - c if metamorphic else set()
         if lost:
             how = ('a second fusion record whose ACCEPTER is the first record\'s donor transcript (chain; the donor\'s '
                    'breakpoint lies in an intron)' if r['desc'].get('chain') else
